@@ -135,9 +135,11 @@ extern "C" void __wrap_fatal(char *fmt, ...) {
 }
 
 // ------------------------------------------------------------------ instruction hook
+static std::string fault_only_prefix;   // opt fault_only_prefix: inject only while a program with this name prefix executes
 static bool prog_exempt(program_t *p) {
   if (!p || !p->name) return false;
   const char *n = p->name;
+  if (!fault_only_prefix.empty()) return strncmp(n, fault_only_prefix.c_str(), fault_only_prefix.size()) != 0;
   if (!strcmp(n, "simul_efun.c") || !strcmp(n, "/simul_efun.c")) return true;
   return false;
 }
@@ -182,6 +184,7 @@ static void instr_hook(int instruction) {
   S.vns_frac += S.instr_cost_ns;
   if (S.vns_frac >= 1000) { S.vus += S.vns_frac / 1000; S.vns_frac %= 1000; }
   if (S.instr_total > S.max_instr) { ev("HANG instructions"); ev_flush(); _exit(75); }
+  if (S.elig_on && !prog_exempt(current_prog)) S.elig_total++;
   if (c04_monitor) c04_check();
   if (S.timer_countdown >= 0 && S.timer_countdown-- == 0) {
     S.timer_countdown = -1;
@@ -355,6 +358,8 @@ int sim_main_run(const Plan &plan) {
   S.console_mode = plan.optl("console", 0) != 0;
   S.stdin_tty = plan.optl("tty", 1) != 0;
   master_exempt = plan.optl("fault_exempt_master", 0);
+  fault_only_prefix = plan.opt.count("fault_only_prefix") ? plan.opt.at("fault_only_prefix") : "";
+  S.elig_on = !fault_only_prefix.empty();
   dump_users_every = plan.optl("dump_users", 0);
   c04_monitor = plan.optl("c04_monitor", 0); c04_reported = 0;
   kernel_reset();
